@@ -4,7 +4,7 @@
    configuration space.  The regenerated program is plugged in by
    coq-run/C02/Tie.v, where `check prog c = true` is established for every
    configuration by vm_compute. *)
-From Coq Require Import String List NArith ZArith Bool Lia.
+From Coq Require Import String List NArith ZArith Bool Lia PeanoNat.
 From Verif.C02 Require Import Syntax Model Spec Check.
 Import ListNotations.
 Open Scope string_scope.
@@ -58,6 +58,23 @@ Proof.
   - intro H. apply tree_same_sound in H. congruence.
   - intro H. apply andb_prop in H. destruct H as [H1 H2]. apply String.eqb_eq in H1.
     pose proof (val_same_sound a b H2). congruence.
+Qed.
+
+Fixpoint tree_documented_sound (krules : list krule) (t : tree) {struct t} :
+  tree_documented krules t = true -> Documented krules t.
+Proof.
+  destruct t as [n | k outs cs]; [intros _; apply Doc_leaf | ].
+  cbn [tree_documented]. intro H. apply andb_prop in H. destruct H as [He Hc].
+  apply existsb_exists in He. destruct He as [[k' [outs' ins]] [Hin He]]. cbn [fst snd] in He.
+  apply andb_prop in He. destruct He as [He Hi]. apply andb_prop in He. destruct He as [He Hl].
+  apply andb_prop in He. destruct He as [Hk Ho]. apply String.eqb_eq in Hk. apply strs_same_sound in Ho.
+  apply Nat.eqb_eq in Hl. subst k' outs'.
+  apply (Doc_node krules k outs ins cs); [exact Hin | exact Hl | | ].
+  - intros i Hi'. rewrite forallb_forall in Hi. specialize (Hi i Hi'). apply existsb_exists in Hi.
+    destruct Hi as [c0 [Hc0 Hm]]. exists c0. split; [exact Hc0 | apply mem_In; exact Hm].
+  - clear Hi Hl Hin. induction cs as [ | c0 cs IH]; intros c1 Hc1; [destruct Hc1 | ].
+    cbn [forallb] in Hc. apply andb_prop in Hc. destruct Hc as [H0 Hr].
+    destruct Hc1 as [<- | Hc1]; [exact (tree_documented_sound krules c0 H0) | exact (IH Hr c1 Hc1)].
 Qed.
 
 (* ------------------------------------------------------------------ the forward pass and Derivable *)
@@ -184,6 +201,7 @@ Lemma check_with_parts : forall cm rm mm c, check_with cm rm mm c = true ->
   b_iff (present c) (c_o c) (c_t c) (c_sc c) (fst (interp (present c) cm [])) = true /\
   b_precedence (present c) (c_t c) (fst (interp (present c) cm [])) = true /\
   b_mode_right (present c) (c_t c) (fst (interp (present c) cm [])) = true /\
+  b_documented (present c) (c_o c) (c_t c) (c_sc c) (fst (interp (present c) cm [])) = true /\
   b_reported (interp (present c) cm []) (fst (interp (present c) rm [])) = true.
 Proof.
   intros cm rm mm c H. unfold check_with in H.
@@ -206,6 +224,7 @@ Lemma check_parts : forall c, check P c = true ->
   b_iff (present c) (c_o c) (c_t c) (c_sc c) (outcome c) = true /\
   b_precedence (present c) (c_t c) (outcome c) = true /\
   b_mode_right (present c) (c_t c) (outcome c) = true /\
+  b_documented (present c) (c_o c) (c_t c) (c_sc c) (outcome c) = true /\
   b_reported (run P c) (reported P c) = true.
 Proof.
   intros c H. rewrite outcome_eq, selected_mode_eq, reported_eq, run_eq.
@@ -314,11 +333,20 @@ Proof using Hgroups.
     rewrite E in Hb. destruct (mem (leaves tr ++ computed tr) "energy"); [discriminate | reflexivity].
 Qed.
 
+Theorem documented : forall c tr m, in_space c -> outcome c = Ok (VTree tr) ->
+  spec_mode (present c) (c_o c) (c_t c) = Some m ->
+  Documented (spec_krules (c_sc c) m (c_o c)) tr.
+Proof using Hgroups.
+  intros c tr m Hc Ho Hm. destruct (check_parts c (check_all c Hc)) as [_ [_ [_ [_ [_ [H _]]]]]].
+  rewrite Ho in H. unfold b_documented in H. cbn [tree_of] in H. rewrite Hm in H.
+  apply tree_documented_sound. exact H.
+Qed.
+
 Theorem reported_is_used : forall c, in_space c ->
   (forall g, reported P c = Ok g -> snd (run P c) = [g]) /\
   (forall cls a, reported P c = Exc cls a -> run P c = (Exc cls a, [])).
 Proof using Hgroups.
-  intros c Hc. destruct (check_parts c (check_all c Hc)) as [_ [_ [_ [_ [_ H]]]]].
+  intros c Hc. destruct (check_parts c (check_all c Hc)) as [_ [_ [_ [_ [_ [_ H]]]]]].
   revert H. generalize (run P c) (reported P c). intros rl rp H.
   unfold b_reported in H. split.
   - intros g Hg. rewrite Hg in H. destruct (snd rl) as [ | g' [ | ]]; try discriminate.
